@@ -1,5 +1,6 @@
 import Driver.Json
 import Model.Mpi
+import Model.MpiPam
 open Lean Drv Ens Ens.Mpi
 
 namespace Drv.C14
@@ -48,6 +49,50 @@ def getK (req : Json) : Except String (Option Nat) :=
   match fieldOpt req "k" with
   | none => pure none
   | some j => do pure (some (← getNat j))
+
+
+/-! ### distributed PAM (`Model/MpiPam.lean`) -/
+
+def pamErrStr : MpiPam.Err → String
+  | .mpi e => errStr e
+  | .oracleExhausted => "oracle-exhausted"
+  | .infState => "inf-state"
+  | .unboundLocal => "unbound-local"
+
+/-- a validated square rational table as a function -/
+def ratTableFn (n : Nat) (t : List (List Rat)) : Except String Cluster.Table := do
+  if t.length ≠ n ∨ t.any (fun row => row.length ≠ n) then throw "table is not n x n"
+  let a := (t.map List.toArray).toArray
+  pure fun f c => (a.getD f #[]).getD c 0
+
+/-- rank-local arrays `{"dist": [[num,den]…], "assign": [int…]}` (`"fresh": true` = all `inf`) -/
+def getArr1 (j : Json) : Except String Cluster.Arr := do
+  let d ← getList getRat (← field j "dist")
+  let a ← getList getInt (← field j "assign")
+  let fr ← match fieldOpt j "fresh" with
+    | some b => getBool b
+    | none => pure false
+  pure { fresh := fr, distA := d.toArray, assignA := a.toArray }
+
+def pstateJson (s : MpiPam.PState) : Json := Json.mkObj [
+  ("ctrs", listJson pairJson s.ctrs),
+  ("coords", listJson natJson s.coords),
+  ("dist", listJson (fun (a : Cluster.Arr) => listJson ratJson a.distA.toList) s.arrs),
+  ("assign", listJson (fun (a : Cluster.Arr) => listJson intJson a.assignA.toList) s.arrs)]
+
+def mstepJson (st : MpiPam.MStep) : Json := Json.mkObj [
+  ("cid", natJson st.cid), ("p", pairJson st.p), ("y", natJson st.y),
+  ("old", ratJson st.oldCost), ("new", ratJson st.newCost), ("acc", Json.bool st.acc)]
+
+def mrunJson (w : Nat) (L : List Nat) (r : MpiPam.MRun) : Json := Json.mkObj [
+  ("final", pstateJson r.final),
+  ("sweeps", listJson pstateJson r.sweeps),
+  ("trace", listJson mstepJson r.trace),
+  ("oracle", listJson natJson r.oracle),
+  ("reassembled", match MpiPam.reassemble w L r.final with
+    | .ok s => okJson (Json.mkObj [("ctrs", listJson natJson s.ctrInds),
+        ("dist", listJson ratJson s.arr.distA.toList), ("assign", listJson intJson s.arr.assignA.toList)])
+    | .error e => errJson (pamErrStr e))]
 
 def handle (op : String) (req : Json) : Except String Json := do
   match op with
@@ -157,6 +202,40 @@ def handle (op : String) (req : Json) : Except String Json := do
         ("dist", listJson (fun r => listJson distJson (tabulate (lay.m r) (s.dist r))) (List.range lay.w)),
         ("assign", listJson (fun r => listJson intJson (tabulate (lay.m r) (s.assign r))) (List.range lay.w))])
       (mpiKcenters lay D .inf k cutoff fuel))
+  | "mpi_pam" =>
+    -- distributed k-medoids on the round-robin layout of `L` over `w` ranks.
+    -- entry "kmedoids": `kmedoids(...)` warm start, centers as (traj, frame) pairs ("centers") or flat
+    -- global ids ("centers_flat"); entry "iterations": `_kmedoids_iterations` from (rank, index) "ctrs"
+    let w ← getNat (← field req "w")
+    let L ← getList getNat (← field req "L")
+    if w = 0 then throw "w = 0"
+    let n := L.sum
+    let D ← ratTableFn n (← getList (getList getRat) (← field req "D"))
+    let arrs ← getList getArr1 (← field req "arrs")
+    if arrs.length ≠ w then throw "arrs: one entry per rank expected"
+    let iters ← getNat (← field req "iters")
+    let props ← match fieldOpt req "props" with
+      | none => pure none
+      | some j => do pure (some (← getList getPair j))
+    let orc ← match fieldOpt req "orc" with
+      | none => pure []
+      | some j => getList getNat j
+    let entry ← getStr (← field req "entry")
+    let res ← match entry with
+      | "kmedoids" =>
+        let centers ← match fieldOpt req "centers", fieldOpt req "centers_flat" with
+          | some j, _ => do pure (Sum.inl (← getList getPair j))
+          | none, some j => do pure (Sum.inr (← getList getNat j))
+          | none, none => throw "centers or centers_flat expected"
+        pure (MpiPam.mpiKmedoids w L D iters arrs centers props orc)
+      | "iterations" =>
+        let ctrs ← getList getPair (← field req "ctrs")
+        pure (MpiPam.mpiKmedoidsIterations (stripeLayout w L) D iters
+          { arrs := arrs, ctrs := ctrs, coords := [] } props orc)
+      | _ => throw "bad entry"
+    pure (match res with
+      | .ok r => okJson (mrunJson w L r)
+      | .error e => errJson (pamErrStr e))
   | _ => throw s!"bad-op C14.{op}"
 
 end Drv.C14
